@@ -609,10 +609,16 @@ func flatCatalogues(c *Ctx) (singles, pairs []gen.Feature) {
 	if c.Thorough() {
 		// singles: every holder x every content with every name of the alphabet + all other features
 		singles = append(gen.Catalogue(gen.Sigma, nil, nil), gen.OtherFeatures(gen.Sigma)...)
-		// pairs: 8 holders x every content (3 names) + other features (core names)
-		rep := map[string]bool{"prop": true, "items": true, "additionalItems": true, "allOfMember": true, "opBody": true, "pathBody": true, "sharedResponse": true, "codeResponse": true}
+		// pairs: 6 holders x the contents of every class (3 names; pointer targets over 3 sub-schema kinds x 4 target kinds)
+		// + other features (core names)
+		rep := map[string]bool{"prop": true, "additionalItems": true, "allOfMember": true, "opBody": true, "pathBody": true, "sharedResponse": true}
 		pairs = append(gen.Catalogue(three, func(hn string) bool { return rep[hn] }, func(ct gen.Content) bool {
-			return !strings.Contains(ct.Label, "items0") && !strings.Contains(ct.Label, "[additionalProperties")
+			if strings.HasPrefix(ct.Label, "pointer[") {
+				okKind := strings.Contains(ct.Label, "[properties,") || strings.Contains(ct.Label, "[items,") || strings.Contains(ct.Label, "[allOf0,")
+				okTarget := strings.HasSuffix(ct.Label, ",simple]") || strings.HasSuffix(ct.Label, ",complex]") || strings.HasSuffix(ct.Label, ",refAuxCollide]") || strings.HasSuffix(ct.Label, ",arrayOfRef]")
+				return okKind && okTarget
+			}
+			return true
 		}), gen.OtherFeatures(gen.SigmaCore)...)
 		return
 	}
